@@ -407,11 +407,7 @@ def _main(tier, seed, scratch, t0):
             items.append(it)
     ctx = {'seed': seed, 'n_extra': 12 if quick else 24, 'max_images': 150 if quick else 1200}
     # determinism self-test: same item twice
-    def stable(rec):
-        # the *value* a violating read returns may be heap garbage (the codec reads past a short
-        # buffer), hence legitimately unstable; everything else must repeat exactly
-        r = dict(rec, violations=[{k: v for k, v in x.items() if k != 'got'} for x in rec['violations']])
-        return json.dumps(r, sort_keys=True, default=str)
+    stable = _stable
     a = one_item(ctx, items[0])
     b = one_item(ctx, items[0])
     if stable(a) != stable(b):
@@ -432,9 +428,13 @@ def _main(tier, seed, scratch, t0):
     viols = {}
     samples = []
     os_writes = 0
+    n_fixed = len(filelib.fixed_specs())
+    lost = []
     for item, rec in results:
         if rec['skipped']:
             skipped_items[rec['skipped']] += 1
+            if item['w'] != 'convert' or item['spec']['id'] < n_fixed or item['spec'].get('data_seed') == 77:
+                lost.append(f"{item['w']} #{item['id']}: {rec['skipped']}")
             continue
         evaluations += rec['pairs']
         images += rec['images']
@@ -453,6 +453,9 @@ def _main(tier, seed, scratch, t0):
         sig = 'worker_crash'
         viols.setdefault(sig, []).append((None, {'signature': sig, 'crash': c}))
 
+    if lost:
+        common.harness_exit('fixed writer runs produced no usable file, the check cannot vouch for anything: '
+                            + '; '.join(lost[:5]))
     known = common.load_known(PID)
     reported = []
     by_id = {it['id']: it for it in items}
@@ -472,7 +475,7 @@ def _main(tier, seed, scratch, t0):
                    'occurrences': len(lst),
                    'what': f"partial file {v['image']} ({v['size']} bytes) via {v['opener']}: {v['call']} returned "
                            f"{v['got'][:80]} instead of raising or {v['want'][:80]}"}
-            path = common.write_replay(PID, seed, f"{item['id']}-{abs(hash(sig)) % 10 ** 6}", doc)
+            path = common.write_replay(PID, seed, f"{item['id']}-{common.sha(sig.encode())[:8]}", doc)
         reported.append({'signature': sig, 'replay': path, 'what': doc['what']})
     wall = time.time() - t0
     coverage = {
@@ -516,3 +519,17 @@ def _clean(item):
     if 'spec' in it:
         it['spec'] = {k: v for k, v in it['spec'].items() if k != 'src'}
     return it
+
+
+def _stable(rec):
+    # the *value* a violating read returns may be heap garbage (the codec reads past a short
+    # buffer), hence legitimately unstable; everything else must repeat exactly
+    r = dict(rec, violations=[{k: v for k, v in x.items() if k != 'got'} for x in rec['violations']])
+    return json.dumps(r, sort_keys=True, default=str)
+
+
+def selftest_digests(seed, n, scratch):
+    items = writer_items(seed, 'quick', scratch)[:n]
+    ctx = {'seed': seed, 'n_extra': 6, 'max_images': 40}
+    results, _, _ = common.run_parallel(lambda c, it: common.sha(_stable(one_item(c, it)).encode()), ctx, items, chunk=1)
+    return [d for _, d in sorted(results, key=lambda x: x[0]['id'])]
